@@ -29,6 +29,7 @@ type world struct {
 	QResult []int `json:"q_result"`
 	// PUT
 	PutPath string `json:"put_path"`
+	PutRel  bool   `json:"put_rel,omitempty"` // the client call spells PutPath relative to the endpoint
 	PutObj  nObj   `json:"put_obj"`
 	PutRes  nObj   `json:"put_res"`
 }
@@ -118,7 +119,7 @@ func genWorld(c *fw.Ctx, g *gen, proto string) *world {
 		if g.chance(2) {
 			nf := 1 + g.r.Intn(2)
 			for j := 0; j < nf; j++ {
-				code := []int{403, 404, 500, 1, 423, 404}[g.r.Intn(6)]
+				code := []int{403, 404, 500, 1, 423, 404, 499, 599, 420}[g.r.Intn(9)]
 				failIdx = append(failIdx, len(w.Objs))
 				w.Objs = append(w.Objs, nObj{Path: col.Path + g.uniqueSeg(hostile, usedO, ext), Fail: code})
 			}
@@ -177,6 +178,13 @@ func genWorld(c *fw.Ctx, g *gen, proto string) *world {
 		g.feat("put:backend-renames")
 	default:
 		w.PutRes.Path = w.PutPath
+	}
+	// A third of the PUTs name the object relative to the client's endpoint
+	// ("u/cal/c/o.ics" against http://dav.example/): the client must still hand
+	// back the backend's (absolute) path. Only when the backend names a path.
+	if w.PutRes.Path != "" && !strings.Contains(w.PutPath, "/../") && !strings.Contains(w.PutPath, "/./") && !strings.Contains(w.PutPath, "//") && g.r.Intn(3) == 0 {
+		w.PutRel = true
+		g.feat("put:relative-name")
 	}
 	return w
 }
@@ -1039,7 +1047,11 @@ func (k *chk) checkPut(w *world) {
 	k.st.calls()
 	var got *nObj
 	var err error
-	if !k.guard(group, op, func() { got, err = k.st.put(w.PutPath, &w.PutObj) }) {
+	callPath := w.PutPath
+	if w.PutRel {
+		callPath = strings.TrimPrefix(w.PutPath, "/")
+	}
+	if !k.guard(group, op, func() { got, err = k.st.put(callPath, &w.PutObj) }) {
 		return
 	}
 	k.observeCall(op, err, false)
